@@ -13,7 +13,7 @@ from math import pi, sqrt
 from pyparsing import (Literal, Optional, White, Regex,
                        ZeroOrMore, OneOrMore, Forward, StringEnd, Group)
 
-from .core import default_table, isatom, isisotope, change_table
+from .core import default_table, isatom, isisotope, ision, change_table
 from .constants import avogadro_number
 from .util import require_keywords, cell_volume
 
@@ -338,11 +338,7 @@ class Formula(object):
         """
         total_natural_mass = total_isotope_mass = 0
         for el, count in self.atoms.items():
-            try:
-                natural_mass = el.element.mass
-            except AttributeError:
-                natural_mass = el.mass
-            total_natural_mass += count * natural_mass
+            total_natural_mass += count * _natural_atom(el).mass
             total_isotope_mass += count * el.mass
         return total_natural_mass/total_isotope_mass
 
@@ -612,6 +608,18 @@ class Formula(object):
     def __repr__(self):
         return "formula('%s')"%(str(self))
 
+
+def _natural_atom(atom):
+    """
+    Return the natural abundance element for an element or isotope, keeping
+    the charge if it is an ion.
+    """
+    charge = atom.charge
+    if ision(atom):
+        atom = atom.element
+    if isisotope(atom):
+        atom = atom.element
+    return atom.ion[charge] if charge != 0 else atom
 
 def _isotope_substitution(compound, source, target, portion=1):
     """
